@@ -12,6 +12,8 @@ from . import values as V
 Z3_TIMEOUT_MS = int(os.environ.get("VERIF_Z3_TIMEOUT_MS", "15000"))
 CVC5_TIMEOUT_MS = int(os.environ.get("VERIF_CVC5_TIMEOUT_MS", "10000"))
 CVC5 = "/usr/bin/cvc5"
+ESCALATION_FACTOR = int(os.environ.get("VERIF_ESCALATION_FACTOR", "4"))
+ESCALATION_MAX = int(os.environ.get("VERIF_ESCALATION_MAX", "16"))      # obligations per discharge() call that may take the second round
 
 
 def global_axioms():
@@ -141,29 +143,54 @@ def _run_cvc5(smt2, timeout_ms):
 def _work(item):
     oid, smt2, expect, use_cvc5, z3_timeout = item
     t = 0.0
+    attempts = []                    # (back end, verdict, seconds, budget in seconds) of every attempt, for the evidence
     if expect == "unsat":
         # Portfolio.  Array extensionality off is a weaker theory (fewer axioms): only `unsat` is accepted from it, and it is
         # both faster and far more stable on the quantified obligations here, so it goes first with a third of the budget.
-        v0, r0, t0, _ = _run_z3_hard(smt2, max(1000, z3_timeout // 3), want_model=False, noext=True)
+        b0 = max(1000, z3_timeout // 3)
+        v0, r0, t0, _ = _run_z3_hard(smt2, b0, want_model=False, noext=True)
         t += t0
+        attempts.append(("z3-noext", v0, round(t0, 3), b0 / 1000.0))
         if v0 == "unsat":
-            return oid, "unsat", "z3-noext", "", t, None
+            return oid, "unsat", "z3-noext", "", t, None, attempts
     verdict, reason, t1, model = _run_z3_hard(smt2, z3_timeout, want_model=True)
     t += t1
+    attempts.append(("z3", verdict, round(t1, 3), z3_timeout / 1000.0))
     backend = "z3"
     if verdict == "unknown" and expect == "unsat":
         v1, r1, t2, _ = _run_z3_hard(smt2, z3_timeout, want_model=False, noext=True)
         t += t2
+        attempts.append(("z3-noext", v1, round(t2, 3), z3_timeout / 1000.0))
         if v1 == "unsat":
             verdict, reason, backend = "unsat", "", "z3-noext"
     if verdict in ("unknown", "error") and use_cvc5:
         v2, r2, t2 = _run_cvc5(smt2, CVC5_TIMEOUT_MS)
         t += t2
+        attempts.append(("cvc5", v2, round(t2, 3), CVC5_TIMEOUT_MS / 1000.0))
         if v2 in ("sat", "unsat"):
             verdict, reason, backend = v2, r2, "cvc5"
         else:
             reason = f"z3: {reason}; {r2 or 'cvc5: unknown'}"
-    return oid, verdict, backend, reason, t, model
+    return oid, verdict, backend, reason, t, model, attempts
+
+
+def _work_escalate(item):
+    """Second round for an obligation the whole portfolio left open.  Wall-clock budgets make a verdict depend on machine speed and
+    load: an obligation that needs 14 s of a 15 s budget is proved on one run and `unknown` on the next (lemma L-count/base did exactly
+    that in a fresh-copy run).  Before such an obligation is reported as undecided it gets ESCALATION_FACTOR times the budget, first with
+    the full theory (a counter-model is still wanted), then with extensionality off.  Only an answer changes the outcome."""
+    oid, smt2, expect, use_cvc5, z3_timeout = item
+    big = z3_timeout * ESCALATION_FACTOR
+    attempts = []
+    v3, r3, t3, m3 = _run_z3_hard(smt2, big, want_model=True)
+    attempts.append(("z3", v3, round(t3, 3), big / 1000.0))
+    if v3 in ("sat", "unsat"):
+        return oid, v3, "z3", "", t3, m3, attempts
+    v4, r4, t4, _ = _run_z3_hard(smt2, big, want_model=False, noext=True)
+    attempts.append(("z3-noext", v4, round(t4, 3), big / 1000.0))
+    if v4 == "unsat":
+        return oid, "unsat", "z3-noext", "", t3 + t4, None, attempts
+    return oid, "unknown", "z3", f"z3: {r3}", t3 + t4, None, attempts
 
 
 def _work_both(item):
@@ -299,7 +326,7 @@ def robust_map(fn, items, jobs, hard_timeout, fallback):
     return [results[i] if done[i] else fallback(items[i]) for i in range(len(items))]
 
 
-def discharge(obligations, jobs=None, use_cvc5=True, z3_timeout=None):
+def discharge(obligations, jobs=None, use_cvc5=True, z3_timeout=None, escalate=False):
     """Fills verdict/backend/time on each obligation.  Returns summary dict."""
     jobs = jobs or min(16, os.cpu_count() or 4)
     axioms = global_axioms()
@@ -308,23 +335,46 @@ def discharge(obligations, jobs=None, use_cvc5=True, z3_timeout=None):
         o.smt2 = o.to_smt2(axioms)
         o.sha = hashlib.sha1(o.smt2.encode()).hexdigest()[:16]
         items.append((o.id, o.smt2, o.expect, use_cvc5, z3_timeout or Z3_TIMEOUT_MS))
+        if os.environ.get("VERIF_DUMP_SMT2"):      # development aid: the exact solver input of every obligation
+            os.makedirs(os.environ["VERIF_DUMP_SMT2"], exist_ok=True)
+            with open(os.path.join(os.environ["VERIF_DUMP_SMT2"], o.id.replace("/", "_") + "." + o.sha + ".smt2"), "w") as f:
+                f.write(o.smt2)
     by_id = {o.id: o for o in obligations}
     t0 = time.time()
     if not items:
-        return {"wall": 0.0, "solver_time": 0.0}
+        return {"wall": 0.0, "solver_time": 0.0, "escalated": 0}
     if jobs > 1 and len(items) > 1:
         zt = (z3_timeout or Z3_TIMEOUT_MS) / 1000.0
         hard = 3 * zt + CVC5_TIMEOUT_MS / 1000.0 + 60
         results = robust_map(_work, items, jobs, hard,
-                             lambda it: (it[0], "unknown", "", "solver process died or exceeded every time limit", hard, None))
+                             lambda it: (it[0], "unknown", "", "solver process died or exceeded every time limit", hard, None, []))
     else:
         results = [_work(it) for it in items]
     total = 0.0
-    for oid, verdict, backend, reason, t, model in results:
+    for oid, verdict, backend, reason, t, model, attempts in results:
         o = by_id[oid]
-        o.verdict, o.backend, o.reason, o.time, o.model = verdict, backend, reason, t, model
+        o.verdict, o.backend, o.reason, o.time, o.model, o.attempts = verdict, backend, reason, t, model, attempts
         total += t
-    return {"wall": time.time() - t0, "solver_time": total}
+    # second round (see _work_escalate): obligations to be proved that are still open, except those the caller marked as set aside
+    # for a recorded open finding (known not to be provable); capped so that a badly broken tree cannot hold the check for hours
+    n_escalated = 0
+    if escalate and ESCALATION_FACTOR > 1:
+        zt_ms = z3_timeout or Z3_TIMEOUT_MS
+        again = [it for it in items if it[2] == "unsat" and by_id[it[0]].verdict not in ("sat", "unsat") and not by_id[it[0]].extra.get("no_escalate")]
+        again = again[:ESCALATION_MAX]
+        n_escalated = len(again)
+        if again:
+            hard2 = 2 * ESCALATION_FACTOR * zt_ms / 1000.0 + 60
+            res2 = robust_map(_work_escalate, again, min(jobs, len(again)), hard2,
+                              lambda it: (it[0], "unknown", "", "solver process died or exceeded every time limit", hard2, None, []))
+            for oid, verdict, backend, reason, t, model, attempts in res2:
+                o = by_id[oid]
+                o.time += t
+                total += t
+                o.attempts = list(o.attempts or []) + list(attempts)
+                if verdict in ("sat", "unsat"):
+                    o.verdict, o.backend, o.reason, o.model = verdict, backend + "-escalated", "", model
+    return {"wall": time.time() - t0, "solver_time": total, "escalated": n_escalated}
 
 
 def second_opinion(obligations, jobs=None):
